@@ -62,6 +62,9 @@ def parse_clustal(data, wrap=60):
         cur = []
         for ln in blk:
             if ln[:1] in (b' ', b'\t'):
+                body = ln.strip()
+                if body and all((65 <= c <= 90 or 97 <= c <= 122 or c == 0x2d) for c in body) and any(c != 0x2d for c in body):
+                    cur.append((b'', body))   # a row whose name is empty (kalign writes what it read)
                 continue                       # conservation line
             parts = ln.split()
             if len(parts) < 2:
@@ -121,7 +124,7 @@ def parse_msf(data, wrap=60):
         m = re.search(rb'MSF:\s*(\d+)\s+Type:\s*(\S)\s.*Check:\s*(\d+)\s+\.\.', ln)
         if m:
             hdr['msf_len'], hdr['type'], hdr['check'] = int(m.group(1)), m.group(2).decode(), int(m.group(3))
-        m = re.match(rb'\s*Name:\s*(\S+)\s+Len:\s*(\d+)\s+Check:\s*(\d+)\s+Weight:\s*([\d.]+)', ln)
+        m = re.match(rb'\s*Name:\s*(\S*?)\s+Len:\s*(\d+)\s+Check:\s*(\d+)\s+Weight:\s*([\d.]+)', ln)
         if m:
             hdr['seqs'].append((m.group(1), int(m.group(2)), int(m.group(3)), m.group(4)))
     if hdr['msf_len'] is None:
@@ -135,6 +138,8 @@ def parse_msf(data, wrap=60):
         cur = []
         for ln in blk:
             parts = ln.split()
+            if ln[:1] in (b' ', b'\t') and b'' in names:
+                parts = [b''] + parts          # a row whose name is empty (kalign writes what it read)
             if len(parts) < 2:
                 problems.append('block %d: line without sequence data: %r' % (bi, ln[:40]))
                 parts = [parts[0], b'']
